@@ -584,3 +584,53 @@ def r_linestrip(P, chk):
             chk.violation(rid, "linestrip:%s" % T.name(v), f.where(), "strip_line_tokens_from_block keeps %s lines (assigned by the parser "
                           "at parser.c:%d) as opaque children: every writer takes the 'Unknown token type: %d' escape and the line's "
                           "text is dropped" % (T.name(v), line, v))
+    # (c) a line kind the function deliberately leaves on a row it keeps (`l->type = .. ? TABLE_ROW : LINE_TABLE_SEPARATOR`: the
+    #     header's separator row) is retired by the writers' shared table helper on every path that found the row, and every
+    #     full writer runs that helper in its table branch
+    kept_kinds = set()
+    for x in f.walk():
+        if x["k"] == "BinaryOperator" and x["op"] == "=" and key(x["c"][0]) == "l->type":
+            for v in rhs_constants(x["c"][1]):
+                if 0 < v < T.nterminal and T.name(v).startswith("LINE_"):
+                    kept_kinds.add(v)
+    if kept_kinds:
+        h = P.func("read_table_column_alignments", "writer.c")
+        tt = token_types(P)
+        retire = [x for x in h.walk() if x["k"] == "BinaryOperator" and x["op"] == "=" and key(x["c"][0]).endswith("->type")
+                  and any(c2 >= T.nterminal for c2 in rhs_constants(x["c"][1])) and x.get("i") in h.cfg.positions()]
+        hp = h.cfg.positions()
+        rblocks = {hp[x["i"]][0] for x in retire}
+        nullable = {key(x["c"][0]).split("->")[0] for x in retire}
+
+        def nonnull(t_):
+            t2 = strip(t_)
+            if t2 is None:
+                return None
+            if t2["k"] == "BinaryOperator" and t2["op"] in ("==", "!=") and key(t2["c"][0]) in nullable and const_value(t2["c"][1]) == 0:
+                return t2["op"] == "!="
+            if t2["k"] == "DeclRefExpr" and t2["n"] in nullable:
+                return True
+            return None
+        reach = edpe_blocks(h, "?none", 0, extra_decide=nonnull, blocked=rblocks)
+        ok = bool(retire) and h.cfg.exit not in reach
+        names = "/".join(sorted(T.name(v) for v in kept_kinds))
+        chk.obligation(rid, "%s (left on the header's separator row) is retyped by read_table_column_alignments on every path that "
+                       "found the row" % names, ok)
+        if not ok:
+            chk.violation(rid, "linestrip:retire:%s" % names, h.where(), "read_table_column_alignments can return without retyping the "
+                          "separator row (%s): the writers then export a raw line token ('Unknown token type', text dropped)" % names)
+        for w, unit, fn, full in WRITERS:
+            if not full:
+                continue
+            g = P.func(fn, unit)
+            blocks = edpe_blocks(g, tok_dkey(g), tt["BLOCK_TABLE"])
+            pos_g = g.cfg.positions()
+            calls = [n for n in block_nodes(g, blocks) if n["k"] == "CallExpr" and n.get("callee") == h.name]
+            tp = tok_param(g)
+            desc = [n for n in block_nodes(g, blocks) if n["k"] == "CallExpr" and (n.get("callee") or "").startswith("mmd_export_token_tree")
+                    and any(resolve_key(g, a) == tp + "->child" for a in n["c"][1:])]
+            okw = bool(calls) and bool(desc) and all(any(g.cfg.dominates(c["i"], d["i"]) for c in calls) for d in desc)
+            chk.obligation(rid, "%s: the table branch runs read_table_column_alignments before it exports the rows" % fn, okw)
+            if not okw:
+                chk.violation(rid, "linestrip:retire:%s" % fn, g.where(), "%s exports a table's rows without read_table_column_alignments "
+                              "having retired the separator row first" % fn)
